@@ -68,6 +68,18 @@ def run(ctx):
         for u in config_list(ctx, d, 2 if q else 5, 0, named=False):
             cases = [('inv', [numeric_operand(rng, d, 3, -2, 2, pad=0)], []) for _ in range(n)]
             groups.append({'u': u, 'opts': {}, 'cases': cases, 'witness': True, 'revisit': 0})
+    # (4) the same blades in several storage orders on ONE algebra with a wrapper set (functions are then called by name):
+    #     x.inv(), y.inv(), x.inv() again, a/x, number/x
+    for d, sig in ((2, [1, 1]), (3, [1, 1, 1]), (3, [1, -1, 0]), (4, [1, 1, 1, -1])):
+        cases = []
+        for _ in range(6 if q else 40):
+            base = list(P.random_key_tuple(rng, d, 3, 2))
+            perms = [tuple(base), tuple(reversed(base)), tuple(rng.sample(base, len(base)))]
+            for k in perms:
+                cases.append(('inv', [k], []))
+                cases.append((rng.choice(['div', 'mulinv']), [P.random_key_tuple(rng, d, 2, 1), k], []))
+        rng.shuffle(cases)
+        groups.append({'u': ucfg(sig=sig), 'opts': {'wrapper': True}, 'cases': cases, 'revisit': 0.6})
     run_plan(ctx, groups, budget=90)
     import kdriver
     return ctx.finish(
